@@ -63,6 +63,7 @@ class Case:
                     mids = [Fraction(it_[k] + it_[k + 1], 2) for k in range(n_ - 1)]
                     bd = [mids[0] - (mids[1] - mids[0])] + mids + [mids[-1] + (mids[-1] - mids[-2])]
                     self.dt = [bd[k + 1] - bd[k] for k in range(n_)]
+                    self.bounds_doc = bd
                 else:
                     self.dt = self.dt_impl
             elif t[0] == "quad":
@@ -332,6 +333,10 @@ def check_C08(lines, obs):
     v = own_parameters(c, lines)
     if v:
         return v
+    doc = getattr(c, "bounds_doc", None)
+    if doc is not None and [Fraction(b) for b in c.bounds] != doc:
+        return fail(lines[1], "ages run to the end of year t: interval bounds lie at the midpoints between consecutive time items, "
+                              "the first and last interval mirroring their neighbour", [str(b) for b in doc], [str(b) for b in c.bounds])
     sf, pdf = c.a3(c.sf), (c.a3(c.pdf) if c.pdf else None)
     wsum = sum(c.w)
     # quadrature rule: documented points
@@ -450,6 +455,64 @@ def check_C17(lines, obs):
     return None
 
 
+def check_tables_history(lines, obs):
+    """a table read from a re-used lifetime model is the table a fresh model with the current parameters builds"""
+    prev = None
+    for ln, ob in zip(lines, obs):
+        if ln in ("h_readsf", "h_readpdf"):
+            prev = (ln, ob)
+        elif ln.startswith("note fresh_sf ") or ln.startswith("note fresh_pdf "):
+            if prev is None:
+                continue
+            want = ln.split(" ", 2)[2]
+            got = prev[1]
+            what = "the survival / outflow table read after any history equals the table of the declared distribution with the current parameters"
+            if want == "err":
+                if got != "err":
+                    return fail(prev[0], what + " (here: none, the parameters are unusable)", "err", got[:200])
+            elif got == "err":
+                return fail(prev[0], what, want[:200], "err")
+            else:
+                tw, tg = want.split(" "), got.split(" ")[1:]
+                if len(tw) != len(tg) or any(not close(pnum(a), pnum(b), 1) for a, b in zip(tw, tg)):
+                    return fail(prev[0], what, want[:300], " ".join(tg)[:300])
+            prev = None
+    return None
+
+
+def check_balance_history(lines, obs):
+    """C03 on re-used objects: after every recompute, stock change = interval length x (inflow - outflow)"""
+    c = Case(lines, obs)
+    if not getattr(c, "dt", None) or not c.n:
+        return None
+    n, dt = c.n, c.dt
+    driver, kind = None, None
+    for ln, ob in zip(lines, obs):
+        t = ln.split(" ")
+        if t[0] == "h_new":
+            kind, driver = t[1], [pnum(x) for x in t[3:]]
+        elif t[0] == "h_setdriver":
+            driver = [pnum(x) for x in t[1:]]
+        elif t[0] == "h_compute" and ob.startswith("ok") and driver is not None:
+            sec = sections(ob)
+            if kind == "idsm":
+                inflow, stock = driver, [pnum(x) for x in sec["S"]]
+            else:
+                inflow, stock = [pnum(x) for x in sec["I"]], driver
+            outflow = [pnum(x) for x in sec["O"]]
+            m = len(stock) // n
+            scale = max([abs(x) for x in stock + inflow + outflow] + [1])
+            for j in range(m):
+                for tt in range(n):
+                    prev_s = stock[(tt - 1) * m + j] if tt > 0 else 0
+                    lhs = stock[tt * m + j] - prev_s
+                    rhs = dt[tt] * (inflow[tt * m + j] - outflow[tt * m + j])
+                    if not close(lhs, rhs, scale * max(dt)):
+                        return fail(ln, f"after a recompute: stock change = interval length x (inflow - outflow) at t={tt}, j={j}",
+                                    float(rhs), float(lhs))
+    return None
+
+
 def driver_untouched(lines, obs):
     """compute() reads its driver (the prescribed inflow or stock) and leaves it as given"""
     for ln, ob in zip(lines, obs):
@@ -510,5 +573,8 @@ def check_C16_with_inverse(lines, obs):
     return notes_ok(lines, obs) or check_C16(lines, obs) or check_C10(lines, obs)
 
 
+HISTORY_CHECKS = {"C03": lambda l, o: check_balance_history(l, o) or check_C17(l, o),
+                  "C08": lambda l, o: check_tables_history(l, o),
+                  "C16": lambda l, o: check_C17(l, o)}
 CHECKS = {k: _guard(v) for k, v in {"C03": check_C03, "C08": check_C08, "C09": check_C09,
                                     "C10": check_C10, "C16": check_C16_with_inverse, "C17": check_C17}.items()}
